@@ -4,9 +4,16 @@
   graph, and one of its ends lies in the sub tree of a rule subject — no import unrelated to the rule's subject is
   ever reported. Part 2 (set equality with the specification's violating set on the strict domain) is
   `Pta.C01.report_spec` in Props/C01.lean.
+  Part 3 (message TEXT, second half of this file): the literal lines of the message (`PtaModel/Message.lean`, transcribed
+  from message_generator.py) are the report items rendered by the four line shapes of `Bridge/Message.lean`, sorted and
+  without duplicates (`line_of_item`, `assert_text_eq`); a parser inverts the renderer on names without `"`
+  (`parse_render`); and the item-level theorems carry over to literal lines (`text_lines_are_imports`, `text_lines_shape`).
 -/
 import Bridge.Abs
+import Bridge.Message
 import PtaProofs.Lemmas.SearchChar
+import PtaProofs.Lemmas.MessageText
+import PtaProofs.Lemmas.MessageTextLayer
 namespace Pta.C03
 open Pta
 
@@ -30,5 +37,151 @@ theorem missing_lines_name_subjects (mt : Str → Str → Bool) (g : PGraph Str)
     (hos : (convertAliases r.cfg).objects = some os) (hconvo : convertFilters mt g.nodes os = .ok objs) :
     ∀ any s objsM d, Item.miss any s objsM d ∈ items → s ∈ subs.map Filter.toMod ∧ ∀ o ∈ objsM, o ∈ objs.map Filter.toMod :=
   Pta.missing_lines_name_subjects_lemma mt g r items h ss subs os objs hss hconv hos hconvo
+
+/-! ## Part 3: the message text -/
+
+/-- `line_of_item`: the lines of the message (`create_rule_violation_messages`, a sorted list without duplicates) are
+    exactly the renderings of the report items; the two determine each other as sets -/
+theorem line_of_item (importRule : Bool) (v : Violations) :
+    messageLines importRule v = renderItems (reportItems importRule v) ∧
+    ∀ line, line ∈ messageLines importRule v ↔ ∃ x ∈ reportItems importRule v, renderItem x = line :=
+  ⟨Pta.messageLines_eq_lemma importRule v, fun line => by
+    rw [Pta.messageLines_eq_lemma]; exact Pta.mem_renderItems _ line⟩
+
+/-- `assert_applies` with the message text is `assert_applies` with the report items, the items rendered
+    (same rule state, same outcome class, same error) -/
+theorem assert_text_eq (mt : Str → Str → Bool) (r : RuleState) (g : PGraph Str) :
+    assertAppliesText mt r g = ((assertApplies mt r g).1, (assertApplies mt r g).2.toText) :=
+  Pta.assertAppliesText_eq_lemma mt r g
+
+/-- the same for a whole call chain (what the driver prints as `M=` and `T=`) -/
+theorem run_text_eq (glob : Str → Str) (mt : Str → Str → Bool) (ops : List RuleOp) (g : PGraph Str) :
+    runRuleOpsText glob mt ops g = ((runRuleOps glob mt ops g).1.toText, (runRuleOps glob mt ops g).2) :=
+  Pta.runRuleOpsText_eq_lemma glob mt ops g
+
+/-- `parse_render`: the parser inverts the renderer on every item whose names contain no `"` and, for a
+    `does not import` item, that has at least one object (`Item.parsable`) -/
+theorem parse_render (x : Item) (h : x.parsable = true) : parseLine (renderLine x) = some x :=
+  Pta.parseLine_renderLine_lemma x h
+
+/-- for a report item: its message line parses to the item, the objects in the order the line lists them -/
+theorem parse_render_item (x : Item) (h : x.canon.parsable = true) : parseLine (renderItem x) = some x.canon :=
+  Pta.parseLine_renderLine_lemma x.canon h
+
+/-- `text_lines_are_imports`: every line `"X" imports "Y".` and every line `"X" is imported by "Y".` of the message
+    (X, Y without `"`) names an import edge of the graph, one end of which lies in the sub tree of a rule subject -/
+theorem text_lines_are_imports (mt : Str → Str → Bool) (g : PGraph Str) (r : RuleState) (lines : List Str)
+    (h : (assertAppliesText mt r g).2 = .fail lines) (ss subs : List Filter)
+    (hss : (convertAliases r.cfg).subjects = some ss) (hconv : convertFilters mt g.nodes ss = .ok subs)
+    (X Y : Str) (hX : noQuote X = true) (hY : noQuote Y = true) :
+    (quoted X ++ " imports ".toList ++ quoted Y ++ ".".toList ∈ lines →
+      Y ∈ g.importSuccs X ∧ ∃ s ∈ subs, Reach g s.id X ∨ Reach g s.id Y) ∧
+    (quoted X ++ " is imported by ".toList ++ quoted Y ++ ".".toList ∈ lines →
+      X ∈ g.importSuccs Y ∧ ∃ s ∈ subs, Reach g s.id Y ∨ Reach g s.id X) := by
+  obtain ⟨items, hi, rfl⟩ := Pta.assertAppliesText_fail_lemma mt r g lines h
+  have hne := Pta.assertApplies_fail_objs_ne_nil mt g r items hi
+  constructor
+  · intro hl
+    have hm : Item.imp X Y false ∈ items := by
+      apply Pta.imp_line_mem_lemma items hne X Y false hX hY
+      simpa [renderLine, List.append_assoc] using hl
+    exact ⟨reported_imports_are_imports mt g r items hi _ _ _ hm,
+      reported_imports_touch_subject mt g r items hi ss subs hss hconv _ _ _ hm⟩
+  · intro hl
+    have hm : Item.imp Y X true ∈ items := by
+      apply Pta.imp_line_mem_lemma items hne Y X true hY hX
+      simpa [renderLine, List.append_assoc] using hl
+    exact ⟨reported_imports_are_imports mt g r items hi _ _ _ hm,
+      reported_imports_touch_subject mt g r items hi ss subs hss hconv _ _ _ hm⟩
+
+/-- `text_lines_shape`: EVERY line of the message has one of the four shapes and says something true — it is
+    `"u" imports "v".` / `"v" is imported by "u".` for an import edge u → v of the graph with an end in a subject's sub tree,
+    or a `does not import` / `is not imported by` line that names one rule subject and a non-empty list of rule objects -/
+theorem text_lines_shape (mt : Str → Str → Bool) (g : PGraph Str) (r : RuleState) (lines : List Str)
+    (h : (assertAppliesText mt r g).2 = .fail lines) (ss subs os objs : List Filter)
+    (hss : (convertAliases r.cfg).subjects = some ss) (hconv : convertFilters mt g.nodes ss = .ok subs)
+    (hos : (convertAliases r.cfg).objects = some os) (hconvo : convertFilters mt g.nodes os = .ok objs) :
+    ∀ line ∈ lines,
+      (∃ u v d, line = renderLine (.imp u v d) ∧ v ∈ g.importSuccs u ∧ ∃ s ∈ subs, Reach g s.id u ∨ Reach g s.id v) ∨
+      (∃ any s objsM d, line = renderLine (.miss any s objsM d) ∧ s ∈ subs.map Filter.toMod ∧ objsM ≠ [] ∧
+        ∀ o ∈ objsM, o ∈ objs.map Filter.toMod) := by
+  obtain ⟨items, hi, rfl⟩ := Pta.assertAppliesText_fail_lemma mt r g lines h
+  have hne := Pta.assertApplies_fail_objs_ne_nil mt g r items hi
+  intro line hl
+  obtain ⟨x, hx, rfl⟩ := (Pta.mem_renderItems items line).1 hl
+  cases x with
+  | imp u v d =>
+    exact .inl ⟨u, v, d, rfl, reported_imports_are_imports mt g r items hi _ _ _ hx,
+      reported_imports_touch_subject mt g r items hi ss subs hss hconv _ _ _ hx⟩
+  | miss any s objsM d =>
+    obtain ⟨h1, h2⟩ := missing_lines_name_subjects mt g r items hi ss subs os objs hss hconv hos hconvo _ _ _ _ hx
+    refine .inr ⟨any, s, sortObjs objsM, d, rfl, h1, Pta.sortObjs_ne_nil _ (hne _ hx _ _ _ _ rfl), ?_⟩
+    intro o ho
+    exact h2 o ((Pta.Dg.sortBy_perm _ objsM).mem_iff.1 ho)
+
+/-! non-vacuity: a graph, a `should only import` rule with two subjects, the literal message, its parse -/
+def S (s : String) : Str := s.toList
+def exG : PGraph Str :=
+  buildGraph [S "p", S "p.a", S "p.a.x", S "p.b", S "p.c", S "q", S "q.r"]
+    [absImport (S "p.a.x") (S "q"), absImport (S "p.c") (S "p.b"), absImport (S "p.c") (S "q.r")] none
+def exRule : RuleState :=
+  { cfg := { subjects := some [.name (S "p.a"), .name (S "p.c")], objects := some [.name (S "q.r"), .name (S "p.b")],
+             shouldOnly := true, importDir := some true } }
+set_option maxRecDepth 8000 in
+example : (assertAppliesText (fun _ _ => false) exRule exG).2 = .fail
+    [S "\"p.a\" does not import \"p.b\", \"q.r\".", S "\"p.a.x\" imports \"q\"."] := by decide
+example : messageText [S "\"p.a\" does not import \"p.b\", \"q.r\".", S "\"p.a.x\" imports \"q\"."] =
+    S "\"p.a\" does not import \"p.b\", \"q.r\".\n\"p.a.x\" imports \"q\"." := by decide
+set_option maxRecDepth 8000 in
+example : (convertAliases exRule.cfg).subjects = some [.name (S "p.a"), .name (S "p.c")] ∧
+    convertFilters (fun _ _ => false) exG.nodes [.name (S "p.a"), .name (S "p.c")] = .ok [.name (S "p.a"), .name (S "p.c")] ∧
+    (convertAliases exRule.cfg).objects = some [.name (S "q.r"), .name (S "p.b")] ∧
+    convertFilters (fun _ _ => false) exG.nodes [.name (S "q.r"), .name (S "p.b")] = .ok [.name (S "q.r"), .name (S "p.b")] :=
+  ⟨rfl, rfl, rfl, rfl⟩
+example : noQuote (S "p.a.x") = true ∧ noQuote (S "q") = true ∧
+    quoted (S "p.a.x") ++ " imports ".toList ++ quoted (S "q") ++ ".".toList ∈
+      [S "\"p.a\" does not import \"p.b\", \"q.r\".", S "\"p.a.x\" imports \"q\"."] := by decide
+example : parseLine (S "\"p.a\" does not import \"p.b\", \"q.r\".") =
+    some (.miss false ⟨false, S "p.a"⟩ [⟨false, S "p.b"⟩, ⟨false, S "q.r"⟩] false) := by decide
+example : (Item.miss true ⟨true, S "p.a"⟩ [⟨true, S "q"⟩, ⟨false, S "p b"⟩] true).parsable = true ∧
+    renderLine (.miss true ⟨true, S "p.a"⟩ [⟨true, S "q"⟩, ⟨false, S "p b"⟩] true) =
+      S "Sub modules of \"p.a\" are not imported by any module that is not a sub module of \"q\", \"p b\"." := by decide
+/-- the hypothesis of `text_lines_are_imports` (X, Y free of `"`) cannot be dropped: with a module whose name is
+    ` imports ` a `does not import` line also has the shape `"X" imports "Y".` for an X that is no module at all -/
+example : renderLine (.miss false ⟨false, S "a"⟩ [⟨false, S " imports "⟩, ⟨false, S "y"⟩] false) =
+    quoted (S "a\" does not import ") ++ " imports ".toList ++ quoted (S ", \"y") ++ ".".toList := by decide
+
+/-! ## Part 3, layer rules -/
+
+/-- `line_of_item` for layer rules: the text generator raises `LayerMismatch` exactly when the item generator does,
+    and otherwise the message lines are the renderings of the layer report items, sorted and without duplicates -/
+theorem layer_line_of_item (m : LayerMap) (importRule : Bool) (v : Violations) :
+    messageLinesL m importRule v = (reportItemsL m importRule v).map renderLItems :=
+  Pta.messageLinesL_eq_lemma m importRule v
+
+/-- `LayerRule.assert_applies` with the message text is the item-valued one, the items rendered -/
+theorem layer_assert_text_eq (mt : Str → Str → Bool) (s : LayerRuleState) (g : PGraph Str) :
+    assertAppliesLayerText mt s g = (assertAppliesLayer mt s g).toText :=
+  Pta.assertAppliesLayerText_eq_lemma mt s g
+
+/-- the same for a whole call chain (what the driver prints as `M=` and `T=` of a `layer` request) -/
+theorem layer_run_text_eq (mt : Str → Str → Bool) (ops : List LayerRuleOp) (g : PGraph Str) :
+    runLayerRuleOpsText mt ops g = ((runLayerRuleOps mt ops g).1.toText, (runLayerRuleOps mt ops g).2) :=
+  Pta.runLayerRuleOpsText_eq_lemma mt ops g
+
+/-! non-vacuity: three layers, `layers that are named "A" should only access layers that are named "C"` -/
+def exLG : PGraph Str :=
+  buildGraph [S "p", S "p.a", S "p.a.x", S "q", S "s", S "r"]
+    [absImport (S "p.a.x") (S "q"), absImport (S "p.a") (S "s")] none
+def exLRule : LayerRuleState :=
+  { arch := some [(S "A", [.name (S "p.a")]), (S "B", [.name (S "q")]), (S "C", [.name (S "r")])],
+    rule := some { cfg := { subjects := some [.name (S "p.a")], objects := some [.name (S "r")],
+                            shouldOnly := true, importDir := some true } } }
+set_option maxRecDepth 8000 in
+example : assertAppliesLayerText (fun _ _ => false) exLRule exLG = .fail
+    [S "\"p.a\" (layer \"A\") imports \"s\" (no layer).", S "\"p.a.x\" (layer \"A\") imports \"q\" (layer \"B\").",
+     S "Layer \"A\" does not import layer \"C\"."] := by decide
+example : renderLItem (.miss true (some (S "A!")) [some (S "A!"), some (S "A"), some (S "a b")] true) =
+    S "Layer \"A!\" is not imported by any layer that is not layer \"A\", layer \"A!\", layer \"a b\"." := by decide
 
 end Pta.C03
